@@ -25,7 +25,9 @@ def check(ctx: Ctx) -> None:
         "bar-relative times reads the carried clock's key; ST2 the defaults equal detokenise's initial clock (time 0, bar time 0, "
         "default signature, full capacity) so an empty state means 'start of piece'; ST3 the state is written after the "
         "end-of-call bar closing (statement order), once, unconditionally; a missing dictionary is replaced by a fresh one. "
-        "Not decided: equality of the detokenised results over all partitions of the bars (value level).")
+        "CLOSE (abstract interpretation over bar time = 0 / > 0 x a note was emitted in the current bar x boolean locals): at the "
+        "end-of-call closing test no state with a note in the bar makes the guard false, i.e. a bar whose notes all start at bar "
+        "time 0 is still closed. Not decided: equality of the detokenised results over all partitions of the bars (value level).")
     ctx.assumptions += ["callers thread the same dictionary object through consecutive calls", "each call receives whole bars (hypothesis of the property)"]
     params = fe.params
     sd = next((a for a in params if "state" in a), None)
@@ -36,26 +38,64 @@ def check(ctx: Ctx) -> None:
     if loop is None:
         raise AnalysisError("tokenise: event loop not found")
 
+    close_rule(ctx, "CLOSE")
     # restored variables
     restored: dict[str, tuple[str, ast.expr, ast.stmt]] = {}
     derived: dict[str, ast.stmt] = {}
     pre_assign: dict[str, ast.stmt] = {}
+    def get_call(e):
+        """`sd.get("key", default)` -> (key, default) else None"""
+        if isinstance(e, ast.Call) and call_method(e)[1] == "get" and isinstance(call_method(e)[0], ast.Name) and call_method(e)[0].id == sd \
+                and e.args and isinstance(e.args[0], ast.Constant):
+            return e.args[0].value, (e.args[1] if len(e.args) > 1 else None)
+        return None
+
     for s in fe.node.body:
         if s is loop:
             break
         if isinstance(s, ast.Assign) and len(s.targets) == 1 and isinstance(s.targets[0], ast.Name):
             v = s.targets[0].id
             pre_assign[v] = s
-            if isinstance(s.value, ast.Call) and call_method(s.value)[1] == "get" and isinstance(call_method(s.value)[0], ast.Name) \
-                    and call_method(s.value)[0].id == sd and s.value.args and isinstance(s.value.args[0], ast.Constant):
-                restored[v] = (s.value.args[0].value, s.value.args[1] if len(s.value.args) > 1 else None, s)
+            g = get_call(s.value)
+            if g is not None:
+                restored[v] = (g[0], g[1], s)
             else:
                 derived[v] = s
+        elif isinstance(s, ast.Assign) and len(s.targets) == 1 and isinstance(s.targets[0], ast.Tuple) and all(isinstance(x, ast.Name) for x in s.targets[0].elts):
+            names = [x.id for x in s.targets[0].elts]
+            pairs = None
+            if isinstance(s.value, ast.Tuple) and len(s.value.elts) == len(names) and all(get_call(x) is not None for x in s.value.elts):
+                pairs = [get_call(x) for x in s.value.elts]
+            elif isinstance(s.value, (ast.GeneratorExp, ast.ListComp)) and len(s.value.generators) == 1 and not s.value.generators[0].ifs \
+                    and isinstance(s.value.generators[0].iter, (ast.Tuple, ast.List)) and all(isinstance(x, ast.Constant) for x in s.value.generators[0].iter.elts) \
+                    and isinstance(s.value.generators[0].target, ast.Name) and isinstance(s.value.elt, ast.Call) and call_method(s.value.elt)[1] == "get" \
+                    and isinstance(call_method(s.value.elt)[0], ast.Name) and call_method(s.value.elt)[0].id == sd and s.value.elt.args \
+                    and isinstance(s.value.elt.args[0], ast.Name) and s.value.elt.args[0].id == s.value.generators[0].target.id:
+                keys = [x.value for x in s.value.generators[0].iter.elts]
+                dflt = s.value.elt.args[1] if len(s.value.elt.args) > 1 else None
+                if len(keys) == len(names):
+                    pairs = [(k, dflt) for k in keys]
+            for i, v in enumerate(names):
+                pre_assign[v] = s
+                if pairs is not None:
+                    restored[v] = (pairs[i][0], pairs[i][1], s)
+                else:
+                    derived[v] = s
     saved: dict[str, tuple[ast.expr, ast.stmt]] = {}
     for s in fe.node.body:
         if isinstance(s, ast.Assign) and len(s.targets) == 1 and isinstance(s.targets[0], ast.Subscript) and isinstance(s.targets[0].value, ast.Name) \
                 and s.targets[0].value.id == sd and isinstance(s.targets[0].slice, ast.Constant):
             saved[s.targets[0].slice.value] = (s.value, s)
+        elif isinstance(s, ast.Expr) and isinstance(s.value, ast.Call) and call_method(s.value)[1] == "update" and isinstance(call_method(s.value)[0], ast.Name) \
+                and call_method(s.value)[0].id == sd:
+            for kw in s.value.keywords:
+                if kw.arg is not None:
+                    saved[kw.arg] = (kw.value, s)
+            for a in s.value.args:
+                if isinstance(a, ast.Dict):
+                    for k, v in zip(a.keys, a.values):
+                        if isinstance(k, ast.Constant):
+                            saved[k.value] = (v, s)
     ctx.floor("state keys restored", len(restored), 8)
     ctx.floor("state keys saved", len(saved), 8)
 
@@ -89,6 +129,9 @@ def check(ctx: Ctx) -> None:
                       construct=f"carried variable `{v}` is not saved back under the key it is restored from",
                       message=f"restored from {key!r}; saved entries with that key: `{short(sv[0]) if sv else None}` -- the next call would resume "
                               f"with a stale or default value", file=fe.file, node=st)
+        elif v in derived and isinstance(derived[v].value, ast.Constant) and not any(isinstance(sv[0], ast.Name) and sv[0].id == v for sv in saved.values()):
+            # initialised from a constant on every call and never written to the state: it cannot carry anything across calls
+            ctx.ok("ST1", inst + " is a per-call temporary (constant initial value, never saved)")
         elif v in derived:
             names = {n.id for n in ast.walk(derived[v].value) if isinstance(n, ast.Name)}
             deps = names & set(pre_assign)
@@ -175,3 +218,165 @@ def check(ctx: Ctx) -> None:
     dflt = next((d for a, d in zip(reversed(fe.node.args.args), reversed(fe.node.args.defaults)) if a.arg == sd), None)
     ctx.check(isinstance(dflt, ast.Constant) and dflt.value is None, "ST3", "the state parameter defaults to None (no shared mutable default)", function=fe.qualname,
               construct="state dictionary parameter has a mutable default", message="calls without state would share one dictionary", file=fe.file, node=fe.node)
+
+
+# ------------------------------------------------------------------------------------------------ CLOSE
+from ..absint import AbsInt, _Frame          # noqa: E402
+
+
+class _CloseInterp(AbsInt):
+    """Worlds (bar_time in {Z,P}, note_in_bar, boolean locals) over tokenise: does the end-of-call closing fire for a bar
+    that received a note although nothing advanced the bar time (all its notes start at bar time 0)?"""
+
+    def __init__(self, fn, bar_time: str, result: str, closure, remaining: str | None = None):
+        super().__init__()
+        self.fn = fn
+        self.rem = remaining
+        self.bt = bar_time
+        self.res = result
+        self.closure = closure
+        self.closing_states: dict[int, set] = {}
+        self.depth = 0
+
+    def join(self, a, b):
+        return a | b
+
+    def copy(self, s):
+        return s
+
+    def _bools(self, w):
+        return dict(w[2])
+
+    def _set(self, w, bt=None, note=None, **bools):
+        b = self._bools(w)
+        b.update(bools)
+        return (bt if bt is not None else w[0], note if note is not None else w[1], tuple(sorted(b.items())))
+
+    def stmt(self, s, st):
+        out = set()
+        for w in st:
+            ws = [w]
+            if isinstance(s, ast.Assign) and len(s.targets) == 1 and isinstance(s.targets[0], ast.Name):
+                n = s.targets[0].id
+                if n == self.rem:
+                    ws = [self._set(w, **{"$rem0": False})]      # refilled from the (positive) total capacity
+                elif n == self.bt:
+                    if isinstance(s.value, ast.Constant) and s.value.value == 0:
+                        ws = [self._set(w, bt="Z", note=False)]
+                    else:
+                        ws = [self._set(w, bt="Z"), self._set(w, bt="P")]
+                elif isinstance(s.value, ast.Constant) and isinstance(s.value.value, bool):
+                    ws = [self._set(w, **{n: s.value.value})]
+                elif n in self._bools(w):
+                    ws = [self._set(w, **{n: True}), self._set(w, **{n: False})]
+            elif isinstance(s, ast.AugAssign) and isinstance(s.target, ast.Name) and s.target.id == self.bt:
+                ws = [self._set(w, bt="P")]
+            elif isinstance(s, ast.AugAssign) and isinstance(s.target, ast.Name) and s.target.id == self.rem and isinstance(s.op, ast.Sub):
+                # the remaining capacity is counted down by a rest that fits: it stays >= 0 (ghost boolean `$rem0` = it is 0)
+                ws = [self._set(w, **{"$rem0": True}), self._set(w, **{"$rem0": False})]
+            elif isinstance(s, ast.Expr) and isinstance(s.value, ast.Call):
+                c = s.value
+                recv, name = call_method(c)
+                if recv is None and self.closure is not None and name == self.closure.name and self.depth == 0:
+                    self.depth += 1
+                    fr = _Frame()
+                    self._frames.append(fr)
+                    end = self.block(self.closure.body, frozenset([w]))
+                    self._frames.pop()
+                    self.depth -= 1
+                    res = set(end or ())
+                    for _, x in fr.returns:
+                        res |= set(x)
+                    ws = list(res)
+                elif isinstance(recv, ast.Name) and recv.id == self.res and name == "append" and c.args:
+                    txt = src(c.args[0])
+                    if "PITCH" in txt or (isinstance(c.args[0], ast.Name) and c.args[0].id == "token"):
+                        ws = [self._set(w, note=True)]
+            out.update(ws)
+        return frozenset(out) or None
+
+    def truth(self, test, w):
+        if isinstance(test, ast.BoolOp):
+            vals = [self.truth(v, w) for v in test.values]
+            if isinstance(test.op, ast.And):
+                return False if any(v is False for v in vals) else (True if all(v is True for v in vals) else None)
+            return True if any(v is True for v in vals) else (False if all(v is False for v in vals) else None)
+        if isinstance(test, ast.UnaryOp) and isinstance(test.op, ast.Not):
+            v = self.truth(test.operand, w)
+            return None if v is None else not v
+        if isinstance(test, ast.Compare) and len(test.ops) == 1 and isinstance(test.left, ast.Name) and test.left.id == self.bt \
+                and isinstance(test.comparators[0], ast.Constant) and test.comparators[0].value == 0:
+            z = w[0] == "Z"
+            return {ast.Gt: not z, ast.Eq: z, ast.NotEq: not z, ast.GtE: True, ast.LtE: z}.get(type(test.ops[0]))
+        if isinstance(test, ast.Name) and test.id in self._bools(w):
+            return self._bools(w)[test.id]
+        if isinstance(test, ast.Compare) and len(test.ops) == 1 and isinstance(test.left, ast.Name) and test.left.id == self.rem \
+                and isinstance(test.comparators[0], ast.Constant) and test.comparators[0].value == 0 and "$rem0" in self._bools(w):
+            z = self._bools(w)["$rem0"]
+            return {ast.Gt: not z, ast.Eq: z, ast.NotEq: not z, ast.GtE: True, ast.LtE: z}.get(type(test.ops[0]))
+        return None
+
+    def cond(self, test, st):
+        par = getattr(test, "_parent", None)
+        if isinstance(par, ast.If) and par in self.fn.body and self.closure is not None and \
+                any(isinstance(c, ast.Call) and isinstance(c.func, ast.Name) and c.func.id == self.closure.name for c in ast.walk(par)):
+            self.closing_states.setdefault(id(par), set()).update((w, self.truth(test, w)) for w in st)
+            self.closing_node = par
+        t, f = set(), set()
+        for w in st:
+            v = self.truth(test, w)
+            if v in (True, None):
+                t.add(w)
+            if v in (False, None):
+                f.add(w)
+        return (frozenset(t) or None), (frozenset(f) or None)
+
+
+def close_rule(ctx: Ctx, rule: str = "CLOSE") -> None:
+    p = ctx.p
+    fe = p.func(f"{TOK}.tokenise")
+    closure = next((n for n in fe.node.body if isinstance(n, ast.FunctionDef)), None)
+    from .c01 import emission_sites, fields_of, block_of, stmt_of
+    sites = emission_sites(fe.node)
+    rest_sites, bar_sites = sites.get("REST", []), sites.get("BAR", [])
+    if not rest_sites or not bar_sites or closure is None:
+        ctx.undetermined(rule, "tokenise: end-of-call bar closing", "REST/BAR emission sites or the rest closure not found: not judged")
+        return
+    c0, js0 = rest_sites[0]
+    flds0 = fields_of(js0)
+    rest_env = T.branch_effect([s_ for s_ in block_of(stmt_of(c0)) if isinstance(s_, (ast.Assign, ast.AugAssign))], p.settings)
+    bar_if = None
+    for a in ancestors(bar_sites[0][0]):
+        if isinstance(a, ast.If) and isinstance(a.test, ast.Compare) and isinstance(a.test.comparators[0], ast.Constant) and a.test.comparators[0].value == 0 \
+                and isinstance(a.test.left, ast.Name):
+            bar_if = a
+    bar_env = T.branch_effect([s_ for s_ in bar_if.body if isinstance(s_, (ast.Assign, ast.AugAssign))], p.settings) if bar_if is not None else {}
+    roles = T.roles_from_effects(rest_env, bar_env, Sym.atom(flds0[0].id)) if flds0 and isinstance(flds0[0], ast.Name) else None
+    if roles is None:
+        ctx.undetermined(rule, "tokenise: end-of-call bar closing", "clock variables not identified: not judged")
+        return
+    it = _CloseInterp(fe.node, roles["cur_time_bar"], T.result_list_name(fe.node), closure, remaining=roles["cur_bar_capacity_remaining"])
+    bools = {"$rem0": False}
+    for s in fe.node.body:
+        if isinstance(s, ast.Assign) and isinstance(s.targets[0], ast.Name) and isinstance(s.value, ast.Constant) and isinstance(s.value.value, bool):
+            bools[s.targets[0].id] = s.value.value
+    entry = frozenset([("Z", False, tuple(sorted(bools.items()))), ("P", False, tuple(sorted(bools.items())))])
+    it.closing_node = None
+    end, rets, _ = it.run_function(fe.node, entry)
+    exit_worlds = set(end or ())
+    for _, stt in rets:
+        exit_worlds |= set(stt)
+    ctx.extra["c03_exit_bools"] = {n: sorted({dict(w[2]).get(n) for w in exit_worlds}, key=str) for n in bools if not n.startswith("$")}
+    ctx.extra["c03_init_bools"] = {n: v for n, v in bools.items() if not n.startswith("$")}
+    if it.closing_node is None:
+        ctx.violation(rule, "tokenise: end-of-call bar closing", function=fe.qualname, construct="no end-of-call bar closing found",
+                      message="a call that ends inside a bar must close it with rests", file=fe.file, node=fe.node)
+        return
+    states = it.closing_states.get(id(it.closing_node), set())
+    bad = sorted({(w[0], w[1]) for w, v in states if w[1] and v is False})
+    some_true = any(v in (True, None) for w, v in states)
+    ctx.check(not bad and some_true, rule, f"tokenise: a bar that received a note is closed at the end of the call ({len(states)} abstract states at the closing test)",
+              function=fe.qualname, construct="end-of-call bar closing does not fire for a bar whose notes all start at bar time 0",
+              message=f"closing guard `{short(it.closing_node.test, 90)}` is false in the state (bar time = 0, a note was emitted in the bar): the clock is "
+                      f"not advanced to the end of that bar, so the next call's events are placed one bar early (and a piece ending with such a bar is "
+                      f"not padded to the bar line)", file=fe.file, node=it.closing_node)
